@@ -18,7 +18,7 @@ from ..corpus import b64
 
 PROP = "C19"
 LEVEL = "exploration"
-COUNTS = {"quick": 900, "thorough": 20000}
+COUNTS = {"quick": 4000, "thorough": 60000}
 WALL = {"quick": 170, "thorough": 3300}
 RULE = (
     "scenario = seeded tree (depth <= 3, <= 14 entries: .md/.MD/.txt/.markdown/no extension, directories incl. one named like a file, "
@@ -224,7 +224,7 @@ class Model:
         out = []
         for spelled, real in results:
             if real in self.dirs or real in self.files:
-                out.append(spelled + ("/" if trailing else ""))
+                out.append(("<W>/" if absolute else "") + spelled + ("/" if trailing else ""))
         return out
 
     @staticmethod
@@ -232,6 +232,37 @@ class Model:
         if spelled == "":
             return name
         return spelled + "/" + name
+
+    @staticmethod
+    def sort_key(spelled):
+        # the run root is an absolute path: it sorts like a name starting with "/"
+        return spelled.replace("<W>", "/", 1) if spelled.startswith("<W>") else spelled
+
+    def _spell_dir(self, arg, real):
+        prefix = arg[:-1] if arg.endswith("/") and len(arg) > 1 else arg
+        top = self.norm(arg)
+        relative = real[len(top) + 1 :] if top else real
+        return prefix + "/" + relative
+
+    def order(self, args, recurse):
+        """Expected processing order: real files, sorted by the spelling under which
+        they were selected; a file reached through several spellings keeps the one
+        that sorts first."""
+        spelled = {}
+
+        def add(real, spelling):
+            if real not in spelled or self.sort_key(spelling) < self.sort_key(spelled[real]):
+                spelled[real] = spelling
+
+        for arg in args:
+            candidates = self.glob(arg) if ("*" in arg or "?" in arg) else [arg]
+            for candidate in candidates:
+                if self.isdir(candidate):
+                    for real in self.walk_select(candidate, recurse):
+                        add(real, self._spell_dir(candidate, real))
+                elif self.eligible(candidate):
+                    add(self.norm(candidate), candidate)
+        return [real for real, _ in sorted(spelled.items(), key=lambda item: self.sort_key(item[1]))]
 
     def select(self, args, recurse):
         """-> (set of real files, error kind or None)"""
@@ -372,15 +403,15 @@ def evaluate(sc):
                 )
             )
             break
-        if sc["command"] in ("scan", "fix") and normalised != sorted(normalised) and len(set(p.split("/")[0] for p in listed)) >= 1:
-            # processing order must be the sorted order of the (spelled) list; with
-            # one spelling per file the normalised order is the printed order
-            spelled_sorted = True
-            if not any(a.startswith(("./", "<W>")) or "/../" in a for a in order):
-                spelled_sorted = normalised == sorted(normalised)
-            if not spelled_sorted:
-                out.append(violation("C19/not-sorted", "C19/not-sorted|%s" % sc["command"], dict(where, processed=listed)))
-                break
+        if not error and normalised != model.order(order, sc["recurse"]):
+            out.append(
+                violation(
+                    "C19/not-sorted",
+                    "C19/not-sorted|%s|order" % ("list" if sc["command"] in ("list", "api-list") else sc["command"]),
+                    dict(where, observed=listed, model_order=model.order(order, sc["recurse"])),
+                )
+            )
+            break
         # exit status of empty / erroneous selections
         if sc["command"] != "api-list":
             if error or not want:
